@@ -53,6 +53,27 @@ func (c *schemaCase) spec() *spec.Schema {
 	return s
 }
 
+// curRegistry is the format registry supplied to both the library and the reference. Schemas that
+// use a format are evaluated under two registries that give different answers for every format name
+// (strfmt.Default knows date/email/uuid but not x-even; customRegistry knows only x-even).
+var curRegistry strfmt.Registry = strfmt.Default
+
+type evenFormat string
+
+func (e evenFormat) String() string                { return string(e) }
+func (e evenFormat) MarshalText() ([]byte, error)  { return []byte(e), nil }
+func (e *evenFormat) UnmarshalText(b []byte) error { *e = evenFormat(b); return nil }
+
+var customRegistry = func() strfmt.Registry {
+	r := strfmt.NewFormats()
+	for _, n := range []string{"date", "email", "uuid"} {
+		r.DelByName(n)
+	}
+	var e evenFormat
+	r.Add("x-even", &e, func(s string) bool { return len(s)%2 == 0 })
+	return r
+}()
+
 // refVerdict evaluates with the reference model. ok=false when the reference cannot judge the pair
 // (outside its domain); such pairs are skipped and counted.
 func refVerdict(schemaText string, inst any) (valid bool, ok bool) {
@@ -65,7 +86,7 @@ func refVerdict(schemaText string, inst any) (valid bool, ok bool) {
 			ok = false
 		}
 	}()
-	ev := &draft4.Evaluator{Root: c.ref, Formats: strfmt.Default}
+	ev := &draft4.Evaluator{Root: c.ref, Formats: curRegistry}
 	return ev.Valid(c.ref, inst), true
 }
 
@@ -78,8 +99,8 @@ func c01disagree(schemaText string, instText string) string {
 		return ""
 	}
 	c := getCase(schemaText)
-	o1 := againstSpec(c.spec(), inst, strfmt.Default)
-	o2, _ := validatorSpec(c.spec(), inst, "", strfmt.Default)
+	o1 := againstSpec(c.spec(), inst, curRegistry)
+	o2, _ := validatorSpec(c.spec(), inst, "", curRegistry)
 	if o1.Panic != "" {
 		return "one-shot entry point panics: " + o1.Panic
 	}
@@ -198,6 +219,7 @@ func c01worker(c *hx.Ctx, sizes []int) int {
 			if c.Quick() && k > 1 {
 				npol = 1 // quick tier: the second map-order policy only for single atoms
 			}
+			usesFormat := strings.Contains(schema, `"format"`)
 			for pol := 0; pol < npol; pol++ {
 				p := 0
 				if pol == 1 {
@@ -214,12 +236,24 @@ func c01worker(c *hx.Ctx, sizes []int) int {
 						}
 					}
 					d := c01disagree(schema, it)
+					if d == "" && usesFormat {
+						// the same pair again with the other registry (a format name then gets the
+						// other answer within the same process), and back
+						curRegistry = customRegistry
+						if d = c01disagree(schema, it); d != "" {
+							d += " (format registry: custom, knows only x-even)"
+						} else {
+							curRegistry = strfmt.Default
+						}
+					}
 					if d == "" {
 						continue
 					}
 					rep.Inc("disagreements", 1)
-					key := schema + "\x00" + it
+					custom := curRegistry == customRegistry
+					key := schema + "\x00" + it + fmt.Sprint(custom)
 					if shrunk[key] {
+						curRegistry = strfmt.Default
 						continue
 					}
 					shrunk[key] = true
@@ -231,10 +265,16 @@ func c01worker(c *hx.Ctx, sizes []int) int {
 						// only fails under this map-order policy: keep the original pair
 						ms, mi, md = schema, it, d+fmt.Sprintf(" (map-order policy %d)", p)
 					}
+					sig := ms + " ⊢ " + mi
+					if custom {
+						sig += " (custom format registry)"
+						md += " (format registry: custom, knows only x-even)"
+					}
+					curRegistry = strfmt.Default
 					rep.AddViolation(hx.Violation{
-						Signature: ms + " ⊢ " + mi,
+						Signature: sig,
 						What:      fmt.Sprintf("schema %s, instance %s: %s", ms, mi, md),
-						Replay:    map[string]any{"schema": ms, "instance": mi, "found_as_schema": schema, "found_as_instance": it, "map_policy": p},
+						Replay:    map[string]any{"schema": ms, "instance": mi, "found_as_schema": schema, "found_as_instance": it, "map_policy": p, "custom_registry": custom},
 					})
 				}
 			}
